@@ -57,6 +57,14 @@ def run(ck):
     rule_X(ck, lib)
     rule_W(ck, lib)
     rule_A(ck)
+    # C04-P: through process every message's response is written, flushed and cleared before the next message is
+    # run, so each response is complete on its own whatever else arrived in the same read
+    import c10
+    pex, pps = ctx.summarize(lib, "microscpi::interface::Interface::process", ck)
+    if ck.anchor("C04-P", "Interface::process", pex):
+        rid = c10.identify_res_buf(pex)
+        if ck.judge(rid is not None, "C04-P", "process:res_buf", "response buffer identified", "cannot identify the response buffer"):
+            c10.response_typestate(ck, pex, rid, "C04-P")
     if ck.tier == "thorough":
         std = ctx.lib(ck, "std")
         if std is not None:
